@@ -20,7 +20,7 @@ var e1Owners = map[string][]string{
 	"C02": {"crosstalk", "foreign-error", "isolation", "handler-twice", "probe", "client-stuck", "server-dropped", "next-rpc-stuck"},
 	"C04": {"cancel-hang", "cancel-error", "cancel-later-op", "cancel-peer", "probe", "close-hang"},
 	"C05": {"fault-hang", "fault-closed", "fault-delivery", "panic", "fault-newstream", "fault-send-ok", "close-count"},
-	"C06": {"probe", "next-rpc-stuck"},
+	"C06": {"probe", "next-rpc-stuck", "server-dropped"},
 	"C07": {"wire", "concurrent-io", "wire-trailing"},
 	"C10": {"handler-error", "spurious-error", "probe", "client-stuck", "panic"},
 	"C11": {"metadata", "metadata-wire"},
@@ -1035,7 +1035,7 @@ func (x *e1) checkFaultContainment() {
 		if !fault {
 			o = "close-hang"
 		}
-		x.viol(o, "ServeOne has not returned after the transport failed or was closed; srv.manageStreams@"+x.whereRole("srv.manageStreams"), strings.Join(x.libCensus(), " "))
+		x.viol(o, "ServeOne has not returned after the transport failed or was closed; srv.manageStreams@"+x.whereRole("srv.manageStreams")+" srv.serveone@"+x.whereRole("srv.serveone"), strings.Join(x.libCensus(), " "))
 	}
 	if x.closeCalls > x.closeDone {
 		x.viol("close-hang", "Conn.Close did not return", strings.Join(x.libCensus(), " "))
@@ -1083,6 +1083,11 @@ func (x *e1) errConsumed(r *rpcRec) bool {
 // close, no timeout and no hostile input, nothing a client does on one rpc may make
 // the SERVER end the connection (that would fail every later rpc).
 func (x *e1) checkServerDropped() {
+	// an inactivity timeout counts the time the server WAITS for the next rpc: it
+	// cannot expire earlier than that long after the last handler returned
+	if t := x.prog.Cfg.Inactivity; t > 0 && x.serveDone && !x.prog.Cfg.Serve && x.pooled == nil && errors.Is(x.serveErr, context.DeadlineExceeded) && x.serveSim-x.lastHRetSim < t {
+		x.viol("server-dropped", "the server's inactivity timeout ended the connection before that much idle time had passed since the last handler returned", fmt.Sprintf("timeout=%s idle=%s", t, x.serveSim-x.lastHRetSim))
+	}
 	if !x.serveDone || x.serveStep == 0 || x.phase == "q4" || x.pooled != nil {
 		return
 	}
